@@ -393,3 +393,35 @@ def run(ck, facts):
                           "the include guard is built from part of the path only (%s): two generated headers with the same file name in different namespace directories share one guard, the second one is skipped" % cut, C.loc(f, n.get("ln")))
     if ng < 2:
         ck.bad("R3", "include-guard/anchor", "include guard computation not found in c::header / cpp::header (2 counted)")
+
+    # ---------------- R5 (cont.) the JS slice conversion is assembled from fragments chosen by (conversion context, ABI): balanced for every reachable combination
+    import fragbal
+    jf = next(iter(tool.fns_matching(r"::js::converter::.*::gen_js_to_c_for_type$")), None)
+    combos = [("List", "Legacy"), ("SlicePrealloc", "Legacy"), ("SlicePrealloc", "CSpec"), ("WriteToBuffer", "Legacy"), ("WriteToBuffer", "CSpec")]  # List mode only exists in the legacy ABI
+    nbal = 0
+    if jf is None:
+        ck.bad("R5", "js::slice-conversion/anchor", "gen_js_to_c_for_type not found")
+    else:
+        mt = next((n for n in C.walk(C.fn_body(jf)) if n.get("k") == "match" and (n.get("sadt") or "").endswith("hir::types::Type")), None)
+        arm = next((a for a in (mt["arms"] if mt else []) if (a["pat"].get("v") or "").split("::")[-1] == "Slice"), None)
+        if arm is None:
+            ck.bad("R5", "js::slice-conversion/arm", "Slice arm not found", C.loc(jf))
+        else:
+            # the fragment code lives in the innermost block that defines `alloc_end`-like fragment locals: take every block of the arm in order
+            blocks = [b for b in C.walk(arm["b"]) if b.get("k") == "block" and any(C.strip_keep_macro(st).get("k") == "letst" for st in (b.get("s") or []))]
+            blk = max(blocks, key=lambda b: len(b.get("s") or [])) if blocks else None
+            for ctx, abi in combos:
+                fr = fragbal.Frag({"gen_context": ctx, "abi": abi})
+                if blk is not None:
+                    fr.run(blk.get("s") or [])
+                finals = [fragbal.fmt_literal(m_) for m_ in C.walk(blk.get("e") or {}) if m_.get("k") == "macro" and m_.get("name") == "format"] if blk is not None else []
+                finals = [l_ for l_ in finals if l_ and "diplomatRuntime" in l_]
+                for l_ in finals:
+                    nbal += 1
+                    text = fragbal.expand(l_, fr.vals)
+                    bal = fragbal.balance(text)
+                    key_ = "js::slice-conversion/balanced/%s+%s#%d" % (ctx, abi, sum(1 for i in ck.instances if i["rule"] == "R5" and i["key"].startswith("js::slice-conversion/balanced/%s+%s#" % (ctx, abi))))
+                    ck.expect(bal["()"] == 0 and bal["[]"] == 0, "R5", key_, text[:70],
+                              "for context %s under the %s ABI the slice conversion expands to `%s`: unbalanced brackets %s, the generated module does not parse" % (ctx, abi, text[:110], bal), C.loc(jf, arm.get("ln")))
+    if nbal < 15:
+        ck.bad("R5", "js::slice-conversion/floor", "only %d (combination, literal) pairs evaluated" % nbal)
